@@ -24,6 +24,13 @@ package main
 //	       handler:begin           a block notification is queued and the follower held at its BeginTx; the task is
 //	                               queued (the worker parks at suspend); Stop; release the follower
 //	       blocks:N                N block notifications queued behind a held follower; Stop; release
+//	stophold B1;B2;…;Bn            n attempts of the select-dependent placement, in ONE op so that its outcome is (almost)
+//	                               a function of the code: attempt i submits block Bi to the node, holds the follower
+//	                               at the BeginTx of Bi, queues the import of the throw-away wallet Ii (the worker
+//	                               parks at suspend), calls Stop, releases the follower. A hang ends the op with
+//	                               HANG; otherwise restart, start, wait for the import, next attempt. A skeleton whose
+//	                               follower may pick quit over a parked worker (probability 1/2 per attempt) survives
+//	                               n attempts with probability 2^-n.                                -> stopped | HANG
 //	racestart W                    hold the worker's first database read, Start, RemoveWallet at once (D10) -> accepted stopped | PANIC …
 //	await                          (after restart + start) wait until no wallet is importing / removing -> wallets string | TIMEOUT
 //	stop                           plain Stop with watchdog                                       -> stopped | HANG
@@ -252,6 +259,8 @@ func (x *protoExec) Exec(a []string) string {
 		return x.stopAt(a[1], a[2], a[3])
 	case a[0] == "racestart" && len(a) == 2:
 		return x.raceStart(a[1])
+	case a[0] == "stophold" && len(a) == 2:
+		return x.stopHold(strings.Split(a[1], ";"))
 	case a[0] == "await" && len(a) == 1:
 		return x.await()
 	case a[0] == "restart" && len(a) == 1:
@@ -459,7 +468,8 @@ func (x *protoExec) stopAt(task, who, place string) string {
 			return r
 		}
 		return x.stopWithWatchdog(func() {
-			time.Sleep(protoSettle) // quit is closed, the follower (if it selects on quit) has returned
+			stopWaiting(3 * time.Second) // quit is closed …
+			time.Sleep(protoSettle)      // … and the follower (if its wait selects on quit) has returned
 			x.g.open()
 		})
 	case (len(p) == 2 && p[0] == "handler" && p[1] == "begin") || (len(p) == 2 && p[0] == "blocks"):
@@ -491,13 +501,106 @@ func (x *protoExec) stopAt(task, who, place string) string {
 			x.g.open()
 			return r
 		}
-		time.Sleep(protoSettle) // the worker has taken the task and stands at suspend()
+		if task != "none" {
+			workerAtSuspend(3 * time.Second) // the worker has taken the task and stands at suspend()
+		}
 		return x.stopWithWatchdog(func() {
-			time.Sleep(protoSettle)
+			stopWaiting(3 * time.Second) // quit is closed
+			time.Sleep(2 * time.Millisecond)
 			x.g.open()
 		})
 	}
 	return "bad-op"
+}
+
+// waitStack polls the goroutine dump until some goroutine's stack contains all the given substrings (that
+// is how the harness KNOWS the worker stands inside suspend() or Stop inside quitWg.Wait, instead of
+// sleeping and hoping); false after d.
+func waitStack(d time.Duration, subs ...string) bool {
+	deadline := time.Now().Add(d)
+	buf := make([]byte, 1<<20)
+	for {
+		n := runtime.Stack(buf, true)
+		for _, g := range strings.Split(string(buf[:n]), "\n\n") {
+			all := true
+			for _, sub := range subs {
+				if !strings.Contains(g, sub) {
+					all = false
+					break
+				}
+			}
+			if all {
+				return true
+			}
+		}
+		if time.Now().After(deadline) {
+			return false
+		}
+		time.Sleep(2 * time.Millisecond)
+	}
+}
+
+// workerAtSuspend: the worker goroutine is inside NtfnsHandler.suspend (parked on the hand-shake).
+func workerAtSuspend(d time.Duration) bool {
+	return waitStack(d, "masswallet.(*NtfnsHandler).suspend", "masswallet.worker")
+}
+
+// stopWaiting: Stop has closed quit and sits in quitWg.Wait.
+func stopWaiting(d time.Duration) bool {
+	return waitStack(d, "masswallet.(*NtfnsHandler).Stop", "sync.(*WaitGroup).Wait")
+}
+
+func (x *protoExec) stopHold(blks []string) string {
+	e := x.e
+	if !x.started {
+		return "bad-op"
+	}
+	// validate everything first: every block defined and extending its predecessor (the first one the node's
+	// tip), one throw-away wallet per attempt
+	prev := e.Tip().name
+	for i, b := range blks {
+		bi, ok := e.blocks[b]
+		if _, has := x.ext[fmt.Sprintf("I%d", i+1)]; !ok || !has || bi.prev != prev {
+			return "bad-op"
+		}
+		prev = b
+	}
+	for i, b := range blks {
+		who := fmt.Sprintf("I%d", i+1)
+		bi := e.blocks[b]
+		if err := e.Submit(b); err != nil {
+			return "err-submit"
+		}
+		x.g.arm("handler", "begin", 1)
+		e.wm.VerifOnBlockConnected(bi.msg)
+		if !x.g.waitHeld(6 * time.Second) {
+			x.g.open()
+			return "nogate"
+		}
+		if r := x.issue("import", who); r != "" {
+			x.g.open()
+			return r
+		}
+		workerAtSuspend(3 * time.Second) // the worker has taken the task and stands at suspend()
+		r := x.stopWithWatchdog(func() {
+			stopWaiting(3 * time.Second) // quit is closed
+			time.Sleep(2 * time.Millisecond)
+			x.g.open()
+		})
+		if r != "stopped" {
+			return r
+		}
+		if err := e.Restart(); err != nil {
+			return "err-restart"
+		}
+		if r := x.start(); r != "ok" {
+			return "err-start"
+		}
+		if s := x.await(); strings.HasPrefix(s, "TIMEOUT") {
+			return s
+		}
+	}
+	return "stopped"
 }
 
 func (x *protoExec) raceStart(who string) string {
@@ -558,9 +661,14 @@ func genProto(g *Gen) {
 	for _, t := range []string{"remove", "import"} {
 		scs = append(scs, sc{t, "worker:begin:1"}, sc{t, "worker:commit:1"})
 	}
-	scs = append(scs, sc{"remove", "worker:begin:2"}, sc{"remove", "worker:commit:2"}, sc{"none", "now"}, sc{"none", "blocks:3"}, sc{"none", "handler:begin"})
+	scs = append(scs, sc{"none", "now"}, sc{"none", "blocks:3"}, sc{"none", "handler:begin"})
 	for _, t := range []string{"remove", "import"} {
 		scs = append(scs, sc{t, "handler:begin"}, sc{t, "blocks:3"})
+	}
+	// first of all: the placement whose outcome depends on the follower's random select, repeated inside one
+	// op (8 attempts: a skeleton that can hang there with probability 1/2 per attempt is caught with 1 - 2^-8)
+	for i := 0; i < g.Scale(1, 3); i++ {
+		genProtoHold(g, g.Scale(8, 10))
 	}
 	reps := g.Scale(2, 6)
 	// the placements whose outcome depends on the follower's select (quit vs sigSuspend) are repeated more often
@@ -627,6 +735,40 @@ func genProtoHistory(g *Gen, task, place string) {
 	// the accepted task survives the stop: after a restart it finishes
 	l.op("restart", "restart")
 	l.op("start", "start")
+	l.op("await", "await")
+	l.op("stop", "stop")
+}
+
+// genProtoHold: n throw-away wallets to import, n blocks for the follower to be held in, one stophold op.
+func genProtoHold(g *Gen, n int) {
+	l := newLedGen(g, "proto")
+	l.g.Reset()
+	l.op("params", "params 2 3")
+	l.op("wallet", "wallet W1")
+	l.op("addr", "addr W1 A1 std")
+	for i := 1; i <= n; i++ {
+		l.op("ext", "ext I%d", i)
+	}
+	pay := func(i int) string {
+		return fmt.Sprintf("A1:%d;I%d:%d;I%d:%d", 100+g.Rng.Intn(100), 1+i%n, 50+g.Rng.Intn(50), 1+(i+1)%n, 20+g.Rng.Intn(20))
+	}
+	prev := "G"
+	for i := 1; i <= 3; i++ {
+		l.op("tx", "tx C%d %d cb %s", i, i, pay(i))
+		l.op("block", "block B%d %s C%d", i, prev, i)
+		l.op("submit", "submit B%d", i)
+		l.op("notify", "notify B%d", i)
+		prev = fmt.Sprintf("B%d", i)
+	}
+	var held []string
+	for i := 4; i < 4+n; i++ {
+		l.op("tx", "tx C%d %d cb %s", i, i, pay(i))
+		l.op("block", "block B%d %s C%d", i, prev, i)
+		prev = fmt.Sprintf("B%d", i)
+		held = append(held, prev)
+	}
+	l.op("start", "start")
+	l.op("stophold", "stophold %s", strings.Join(held, ";"))
 	l.op("await", "await")
 	l.op("stop", "stop")
 }
